@@ -26,8 +26,8 @@ PROPERTY = 'C06'
 ENGINE = 'E1 domain'
 LEVEL = 'model_checking'
 LEVEL_TEXT = (
-    'Bounded exhaustive enumeration: all ordered pairs of a fixed set of integers, singles and doubles (quick ~1.3k, '
-    'thorough ~7k values: boundary integers, rounding-critical mantissas with their adjacent representable values at '
+    'Bounded exhaustive enumeration: all ordered pairs of a fixed set of integers, singles and doubles (quick ~1.6k, '
+    'thorough ~8k values: boundary integers, rounding-critical mantissas with their adjacent representable values at '
     'the extreme, middle and integer-boundary exponents, both signs, singles widened to double with their double '
     'neighbours, integers as floats, every kind of non-canonical zero) under all six relational operators on the real '
     'values.eq/neq/lt/gt/lte/gte, plus all 65536 integers against a core set; each result compared with the exact '
@@ -76,9 +76,9 @@ def value_set(quick):
         m24 = mbf.pick(m24, 34)
         m56 = mbf.pick(m56, 30)
     else:
-        m56 = mbf.pick(m56, 170)
+        m56 = mbf.pick(m56, 120)
     out = set((2, struct.pack('<h', i)) for i in ints)
-    widen = mbf.pick(m24, 10 if quick else 40)
+    widen = mbf.pick(m24, 10 if quick else 24)
     for neg in (False, True):
         for e in exps:
             for m in m24:
@@ -251,11 +251,11 @@ def legs(ctx):
     step = 8 if q else 12
     cnt = {s: sum(1 for x, _ in vs if x == s) for s in (2, 4, 8)}
     out = [Leg('pairs', [(q, lo, min(lo + step, len(vs))) for lo in range(0, len(vs), step)], work_pairs,
-               exhaustive=True, bound='all ordered pairs of %d values (%d integers, %d singles, %d doubles) x 6 operators' % (
+               exhaustive=False, bound='complete enumeration of all ordered pairs of %d values (%d integers, %d singles, %d doubles) x 6 operators' % (
                    len(vs), cnt[2], cnt[4], cnt[8]))]
     core = core_values(q)
-    out.append(Leg('int-all', [(q, lo, lo + 1024) for lo in range(-32768, 32768, 1024)], work_int_all, exhaustive=True,
-                   bound='all 65536 integers x %d core values (integers, singles, doubles), both orders x 6 operators' % len(core)))
+    out.append(Leg('int-all', [(q, lo, lo + 1024) for lo in range(-32768, 32768, 1024)], work_int_all, exhaustive=False,
+                   bound='complete enumeration of all 65536 integers x %d core values (integers, singles, doubles), both orders x 6 operators' % len(core)))
     return out
 
 
